@@ -56,9 +56,12 @@ RULES = {
     # R2: Vec::extend(Vec) -> wrapper fn (Verus has no spec for Extend::extend)
     "R2": [(re.compile(r"\b(\w+)\.extend\((?!_from_slice)"), r"vf_extend(&mut \1, ")],
     # R7: <uN>::parse_be(i) / uN::parse(i) on primitives -> wrapper fns (no inherent impl on primitives)
-    "R7": [(re.compile(r"<(u8|u16|u32|u64|u128|i8|i16|i32|i64|i128|f64)>::parse(_be)?\("), r"vf_parse_\1("),
+    "R7": [(re.compile(r"<(u8|u16|u32|u64|u128|i8|i16|i32|i64|i128|f64)>::parse(_be)?\b"), r"vf_parse_\1"),
            (re.compile(r"\b(u8|u16|u32|u64|u128|i8|i16|i32|i64|i128|f64)::parse\("), r"vf_parse_\1("),
            (re.compile(r"<Vec<u8>>::parse(_be)?\("), r"vf_parse_vec_u8(")],
+    # R13: `<Vec<T>>::parse_be(i)` is nom-derive's blanket impl for Vec<T>: many0(complete(T::parse_be))(i)
+    #      (nom-derive 0.10.1 src/traits.rs); inlined so that the combinator contracts apply
+    "R13": [(re.compile(r"<Vec<(?!u8>)(\w+)>>::parse(_be)?\("), r"nom::multi::many0(nom::combinator::complete(<\1>::parse_be))(")],
     # R8: `<T>::parse_be` / `<T>::parse` path used as a *value* stays as is; `Self::parse_be` too.
     # R9: nom-derive "Value = E" fields expand to an immediately applied, capture-only closure
     #     `({ |__i__| Ok((__i__, E)) })(i)?`; it is beta-reduced to `(i, E)` (Verus cannot infer the
@@ -70,6 +73,27 @@ RULES = {
     # R11: `usize::from(x)` for x: u16 -> `(x as usize)` is identical (lossless widening); Verus has no From spec.
     "R11": [(re.compile(r"\busize::from\("), "vf_usize_from(")],
 }
+
+
+def rule_r14(body, hits):
+    """R14: `let (i, X) = nom::multi::many0(ARG)(i)?;` -> `let __m0_X = ARG; let (i, X) = nom::multi::many0(__m0_X)(i)?;`
+    (let-binding of a temporary, evaluation order unchanged) so that proof text can name the parser value."""
+    out = body
+    pos = 0
+    while True:
+        m = mask(out)
+        mm = re.compile(r"let\s*\(\s*i\s*,\s*(\w+)\s*\)\s*=\s*nom::multi::many0\(").search(m, pos)
+        if not mm:
+            break
+        op = mm.end() - 1
+        cl = match_close(m, op)
+        arg = out[op + 1:cl]
+        name = "__m0_" + mm.group(1)
+        rep = "let %s = %s; let (i, %s) = nom::multi::many0(%s" % (name, arg, mm.group(1), name)
+        out = out[:mm.start()] + rep + out[cl:]
+        pos = mm.start() + len(rep)
+        hits["R14"] = hits.get("R14", 0) + 1
+    return out
 
 
 def apply_rules(body, rules, hits):
@@ -280,6 +304,11 @@ class Extractor:
         for key, val in opts:
             if key == "generics":
                 sig = re.sub(r"\bfn\s+%s\b(?!\s*<)" % fname, "fn %s%s" % (fname, val.strip()), sig, count=1)
+        for key, val in opts:
+            if key == "prerules":
+                body = apply_rules(body, [r for r in val.split() if r != "R14"], hits)
+                if "R14" in val.split():
+                    body = rule_r14(body, hits)
         # ---- body edits, applied from the end so offsets stay valid
         edits = []  # (pos_start, pos_end, replacement)
         cl = None
@@ -288,7 +317,7 @@ class Extractor:
         for key, val in opts:
             if key in ("requires", "ensures", "decreases"):
                 contract.append((key, val.strip().rstrip(",")))
-            elif key == "rules":
+            elif key in ("rules", "prerules"):
                 pass
             elif key.startswith("closure "):
                 if cl is None:
@@ -383,6 +412,8 @@ class Extractor:
                         elif ch == ";" and depth == 0:
                             break
                         k += 1
+                    if re.search(r"multi::|many0|map_res|complete\(", body[mm.start():k]):
+                        break        # combinator steps are handled by their own lemmas; offsets after them are not tracked
                     pre = "let ghost __p = i@; "
                     if first:
                         pre = "let ghost mut __off: int = 0; proof { assert(i@ =~= %s@.subrange(0, %s@.len() as int)); } " % (orig, orig) + pre
@@ -437,7 +468,12 @@ class Extractor:
                 continue
             d = st[3:].strip()
             if d.startswith("include "):
-                out.append(self.expand(os.path.join(CONTRACTS, d.split()[1]), depth + 1))
+                parts = d.split()
+                sub = self.expand(os.path.join(CONTRACTS, parts[1]), depth + 1)
+                for kv in parts[2:]:      # parameters: K=V replaces @K@ in the included text
+                    k, _, v = kv.partition("=")
+                    sub = sub.replace("@%s@" % k, v)
+                out.append(sub)
             elif d.startswith("layout "):
                 import layouts
                 out.append(layouts.gen(d.split()[1], "+lemmas" in d.split(), "+append" in d.split()))
